@@ -18,6 +18,7 @@ type BitRef struct {
 	Role     string    // container root name
 	Pos      ssa.Value // x
 	PosLin   Lin
+	SplitOff ssa.Value // word-wise form: Pos is the aligned position of the word, SplitOff the bit offset in [0, 63]; PosLin is their sum
 	Write    bool
 	Use      ssa.Value // the single-bit value (read) / nil
 	Problem  string    // non-empty: the word and the bit are selected by different positions
@@ -90,6 +91,21 @@ func selectorWidthProblem(sel ssa.Value) string {
 	}
 }
 
+// selectorBaseProblem: a single-bit selector written as a shift is 1<<off (or v<<off for a variable bit value): a
+// constant base other than 1 selects another bit, or several.
+func selectorBaseProblem(sel ssa.Value) string {
+	sel = stripConv(sel)
+	if cv, ok := sel.(*ssa.Convert); ok {
+		sel = cv.X
+	}
+	if b, ok := sel.(*ssa.BinOp); ok && b.Op == token.SHL {
+		if k, isK := constUint64(stripConv(b.X)); isK && k != 1 {
+			return fmt.Sprintf("the bit selector is %d<<off, not 1<<off", k)
+		}
+	}
+	return ""
+}
+
 func bitRefs(w *World, fn *ssa.Function) []BitRef {
 	fa := w.FA(fn)
 	var out []BitRef
@@ -136,9 +152,35 @@ func bitRefs(w *World, fn *ssa.Function) []BitRef {
 			br.Problem = "the word container is a merged re-sliced view whose offset cannot be determined"
 		}
 		posVN := fa.VN(stripConv(px))
+		var useBlk *ssa.BasicBlock
 		checkOff := func(off ssa.Value) {
 			ox, j, ok := asLowMask(off)
 			if !ok {
+				// word-wise form: the word of an aligned position is loaded once and its bits are addressed by an offset
+				// known to lie in [0, 63] (for base := 0; ..; base += 64 { w := C[base>>6]; for j := 0; j < 64; j++ { w & (1<<j) } }):
+				// the bit referenced is base + j
+				if useBlk != nil && br.SplitOff == nil {
+					if cg, okc := fa.CongLin(br.PosLin, 64); okc && cg == 0 {
+						bd := fa.BoundsAt(useBlk, fa.Lin(off))
+						if !bd.HasLo {
+							// a counter that starts at a non-negative constant and counts up
+							if ivo, okI := fa.InductionOf(off, useBlk); okI && ivo.FirstConst && ivo.First >= 0 && ivo.Step > 0 {
+								bd.lower(ivo.First, "counts up from its first value")
+							}
+						}
+						if bd.HasLo && bd.HasHi && bd.Lo >= 0 && bd.Hi <= 63 {
+							br.SplitOff = off
+							br.PosLin = br.PosLin.Add(fa.Lin(off))
+							br.OffWidth = 6
+						}
+					}
+				}
+				// an offset masked with something that is not 2^j-1 (x & 62) drops positions
+				if _, k, isAnd := asBinConst(off, token.AND); isAnd && k > 0 {
+					if _, pow := log2(uint64(k) + 1); !pow {
+						br.Problem = fmt.Sprintf("the bit offset is masked with %d, which is not of the form 2^j-1: some offsets are mapped onto others", k)
+					}
+				}
 				// x - 64*(x>>6) etc. not recognised: say nothing
 				return
 			}
@@ -175,6 +217,27 @@ func bitRefs(w *World, fn *ssa.Function) []BitRef {
 									if p := selectorWidthProblem(s); p != "" && br.Problem == "" {
 										br.Problem = p
 									}
+									if p := selectorBaseProblem(s); p != "" && br.Problem == "" {
+										br.Problem = p
+									}
+								}
+							}
+						} else {
+							// a bit is SET by OR-ing it in: ^= clears a bit that is already 1 and += carries into its neighbour
+							// (a position listed twice, a repeated Set)
+							for _, op := range []token.Token{token.XOR, token.ADD} {
+								if a, b, ok := asBin(u.Val, op); ok {
+									for k, s := range []ssa.Value{a, b} {
+										other := []ssa.Value{b, a}[k]
+										if _, isSel := selectorOffset(s); !isSel {
+											continue
+										}
+										if ld, isLd := stripConv(other).(*ssa.UnOp); isLd && ld.Op == token.MUL {
+											if ia2, isIA := ld.X.(*ssa.IndexAddr); isIA && fa.VN(ia2.X) == fa.VN(addr.X) && fa.Lin(ia2.Index).Eq(fa.Lin(addr.Index)) {
+												br.Problem = fmt.Sprintf("the bit is combined into its word with %s instead of |: setting a bit that is already 1 (a position given twice, a repeated Set) clears it or carries into the next bit", op)
+											}
+										}
+									}
 								}
 							}
 						}
@@ -193,6 +256,7 @@ func bitRefs(w *World, fn *ssa.Function) []BitRef {
 				if !ok {
 					continue
 				}
+				useBlk = b.Block()
 				switch b.Op {
 				case token.AND:
 					other := b.Y
@@ -203,6 +267,9 @@ func bitRefs(w *World, fn *ssa.Function) []BitRef {
 						checkOff(off)
 						br.Use = b
 						if p := selectorWidthProblem(other); p != "" && br.Problem == "" {
+							br.Problem = p
+						}
+						if p := selectorBaseProblem(other); p != "" && br.Problem == "" {
 							br.Problem = p
 						}
 					}
